@@ -139,9 +139,35 @@ def parseKState (str : String) : Option KState :=
   | "F" => some .genFailed
   | _ => none
 
+/-- `imm=1`: the service creates the version directly in its final state (`final=-`: ENABLED, `D`: DISABLED with
+    key material — GetPublicKey answers —, `F`: GENERATION_FAILED) and the response reports that state -/
+def createdOf (imm : Bool) (final : Option KState) : KInit :=
+  if imm then
+    match final with
+    | none => .enabled
+    | some .disabled => .disabled
+    | some .genFailed => .genFailed
+    | some _ => .pending
+  else .pending
+
+/-- key material GetPublicKey reports for a version that was created DISABLED (no ENABLED version has it) -/
+def disabledMaterial : Nat := 1000000
+
+/-- `resp=`: the state the response of CreateCryptoKeyVersion reports when it is not the created state -/
+def parseResp (str : String) : Option KObs :=
+  match str with
+  | "E" => some .enabled
+  | "P" => some .pending
+  | "D" => some .other
+  | "F" => some .other
+  | _ => none
+
 def kmsEnvOf (f : Fields) (parent : String) : KmsEnv :=
-  { parent := parent, gen := f.nat "gen", final := parseKState (f.get "final"),
-    deadline := f.bool "dl", corrupt := f.get "cor" != "-" && f.get "cor" != "" }
+  let final := parseKState (f.get "final")
+  let imm := f.bool "imm"
+  { parent := parent, gen := f.nat "gen", final := final,
+    deadline := f.bool "dl", corrupt := f.get "cor" != "-" && f.get "cor" != "",
+    created := createdOf imm final, resp := parseResp (f.get "resp"), pubDisabled := if imm then some disabledMaterial else none }
 
 /-- rotate.Bootstrap on the Cloud KMS stack (fault-free: root cryptoKey version 1, signing cryptoKey
     version 1), followed by `hist` fault-free rotations (serials 3, 4, …), reloaded -/
